@@ -150,6 +150,48 @@ def phi_lit(g: GQ) -> dict:
 
 PARAM_OPS = ("pnew", "pset", "pmin", "pmax", "dnew", "dset", "dsetp", "dremove")
 PCIRC_OPS = ("bsp", "psp", "lossp", "freeze")
+# CALLER-OWNED DATA.  What the client does with ITS OWN containers is no call into the library and is not sent to the
+# model: the property demands that every library object is exactly what it was afterwards.
+#   ["cbox", name, "list" | "tuple", [lo, hi]]     the client makes a container of bounds
+#   ["pnew", pid, v, b, {"box": name}]              Parameter(v, bounds=<that container object>); b = its content now
+#   ["dnew", d, pairs, {"box": name}]               ParameterDict(**<the client's dict>) (made on first use)
+#   ["cmut", name, how, i, lit]                     the client writes into its container afterwards
+#                                                   (how: set | clear | append | reverse | pop | setp | ident)
+#   ["cscrib", what, target]                        the client writes into an object a library call RETURNED
+#                                                   (what: gap | pd_items | pd_params | pd_bounds)
+# the dict handed to Circuit.mode_swaps is kept as the box "swaps:<cid>"
+CLIENT_OPS = ("cbox", "cmut", "cscrib")
+
+
+def model_view(prog: list) -> tuple[list, list[int]]:
+    """the calls into the library as the model sees them, and their positions in prog"""
+    out, idx = [], []
+    for k, op in enumerate(prog):
+        if op[0] in CLIENT_OPS:
+            continue
+        if op[0] == "pnew":
+            op = op[:4]
+        elif op[0] == "dnew":
+            op = op[:3]
+        out.append(op)
+        idx.append(k)
+    return out, idx
+
+
+def box_mut(content: list, how: str, i, new) -> None:
+    """the client's write into a LIST it owns (used on the real list and on the generator's record of it)"""
+    if how == "set":
+        if i < len(content):
+            content[i] = new
+    elif how == "clear":
+        content.clear()
+    elif how == "append":
+        content.append(new)
+    elif how == "reverse":
+        content.reverse()
+    elif how == "pop":
+        if content:
+            content.pop(i % len(content))
 
 
 # --------------------------------------------------------------------------- execution on lightworks
@@ -160,6 +202,7 @@ class World:
         self.params: dict[int, lw.Parameter] = {}
         self.dicts: dict[str, lw.ParameterDict] = {}
         self.circs: dict = {}
+        self.boxes: dict = {}   # containers owned by the client
 
 
 def _arg(w: World | None, a: dict | None, vals: dict | None = None):
@@ -195,10 +238,14 @@ def apply_op(w: World, op: list) -> str:
     name = op[0]
     try:
         if name == "pnew":
-            _, pid, v, b = op
+            pid, v, b = op[1:4]
             if pid in w.params:
                 return "KeyError"
             bounds = None if b is None else [None if x is None else py_of(x) for x in b]
+            if len(op) > 4 and op[4].get("box") is not None:
+                # the client's own object, not a copy (it holds what the history says unless a library call wrote into it:
+                # run_case reports that; a history cut down by the shrinker is vetted by well_formed)
+                bounds = w.boxes[op[4]["box"]]
             w.params[pid] = lw.Parameter(py_of(v), bounds=bounds)
         elif name == "pset":
             w.params[op[1]].set(py_of(op[2]))
@@ -207,7 +254,10 @@ def apply_op(w: World, op: list) -> str:
         elif name == "pmax":
             w.params[op[1]].max_bound = None if op[2] is None else py_of(op[2])
         elif name == "dnew":
-            w.dicts[op[1]] = lw.ParameterDict(**{k: w.params[pid] for k, pid in op[2]})
+            src = {k: w.params[pid] for k, pid in op[2]}
+            if len(op) > 3 and op[3].get("box") is not None:
+                src = w.boxes.setdefault(op[3]["box"], src)
+            w.dicts[op[1]] = lw.ParameterDict(**src)
         elif name == "dset":
             w.dicts[op[1]][op[2]] = py_of(op[3])
         elif name == "dsetp":
@@ -218,6 +268,12 @@ def apply_op(w: World, op: list) -> str:
             apply_pcirc(w.circs, op, w, None)
         elif name == "freeze":
             w.circs[op[1]] = w.circs[op[2]].copy(freeze_parameters=True)
+        elif name == "swaps":
+            d = {k: v for k, v in op[2]}
+            w.boxes["swaps:" + op[1]] = d   # the client keeps the dict it hands over
+            w.circs[op[1]].mode_swaps(d)
+        elif name in CLIENT_OPS:
+            apply_client(w, op)
         else:
             return cg.apply_op(w.circs, op)
     except AssertionError:
@@ -225,6 +281,74 @@ def apply_op(w: World, op: list) -> str:
     except Exception as e:  # noqa: BLE001
         return exc_class(e)
     return "ok"
+
+
+def apply_client(w: World, op: list) -> None:
+    """what the client does with its own objects (never a call that may be refused)"""
+    name = op[0]
+    if name == "cbox":
+        vals = [None if x is None else py_of(x) for x in op[3]]
+        w.boxes[op[1]] = vals if op[2] == "list" else tuple(vals)
+    elif name == "cmut":
+        _, box_name, how, i, lit = op
+        box = w.boxes.get(box_name)
+        if isinstance(box, list):
+            box_mut(box, how, i, None if lit is None else py_of(lit))
+        elif isinstance(box, dict):
+            if how == "clear":
+                box.clear()
+            elif how == "pop":
+                if box:
+                    box.pop(list(box)[i % len(box)])
+            elif how == "setp":      # the client's dict of Parameters: another Parameter under an existing key
+                if box and lit in w.params:
+                    box[list(box)[i % len(box)]] = w.params[lit]
+            elif how == "append":
+                box[f"new{i}"] = w.params[lit] if lit in w.params else lit
+            elif how == "ident":     # a mode_swaps dict: rewritten to the identity
+                for k in list(box):
+                    box[k] = k
+        # a tuple cannot be written to
+    else:
+        _, what, target = op
+        try:
+            if what == "gap" and target in w.circs:
+                for f in (list.clear, list.reverse, lambda l: l.append(lw.Parameter(0.5)), lambda l: l.pop(0) if l else None):
+                    f(w.circs[target].get_all_params())
+            elif target in w.dicts:
+                pd = w.dicts[target]
+                if what == "pd_items":
+                    pd.items().clear()
+                    it = pd.items()
+                    if it:
+                        it[0] = (it[0][0], 12345)
+                elif what == "pd_params":
+                    pd.params.clear()
+                    pd.params.append("zz")
+                elif what == "pd_bounds":
+                    b = pd.get_bounds()
+                    for k in list(b):
+                        b[k] = (5, 6)
+                    b.clear()
+        except (TypeError, AttributeError):
+            pass   # an immutable hand-out refuses the write
+
+
+def box_snapshot(w: World) -> dict:
+    """the client's containers: element values (Parameters by identity)"""
+    out = {}
+    for name, box in w.boxes.items():
+        items = list(box.items()) if isinstance(box, dict) else list(enumerate(box))
+        out[name] = (type(box).__name__, [(k, ("P", id(v)) if isinstance(v, lw.Parameter) else v) for k, v in items])
+    return out
+
+
+def box_diff(a: dict, b: dict) -> str | None:
+    for name, (ta, ia) in a.items():
+        tb, ib = b.get(name, (None, None))
+        if ta != tb or len(ia) != len(ib) or any(x[0] != y[0] or not same_val(x[1], y[1]) for x, y in zip(ia, ib)):
+            return f"{name}: {[v for _, v in ia]} -> {None if ib is None else [v for _, v in ib]}"
+    return None
 
 
 def run_prog(prog: list) -> tuple[World, list[str]]:
@@ -246,10 +370,34 @@ def same_val(a, b) -> bool:
         return False
 
 
+class Raised:
+    """an accessor that raised instead of returning (recorded as the observable, so that the oracles report it with the
+    history that led there)"""
+
+    def __init__(self, exc: str) -> None:
+        self.exc = exc
+
+    def __eq__(self, o: object) -> bool:
+        return isinstance(o, Raised) and o.exc == self.exc
+
+    def __hash__(self) -> int:
+        return hash(self.exc)
+
+    def __repr__(self) -> str:
+        return f"<raises {self.exc}>"
+
+
+def _read(f):
+    try:
+        return f()
+    except Exception as e:  # noqa: BLE001
+        return Raised(exc_class(e))
+
+
 def snapshot(w: World) -> dict:
     """public observables of every live object"""
     ident = {id(p): pid for pid, p in w.params.items()}
-    params = {pid: (p.get(), p.min_bound, p.max_bound) for pid, p in w.params.items()}
+    params = {pid: (_read(p.get), _read(lambda p=p: p.min_bound), _read(lambda p=p: p.max_bound)) for pid, p in w.params.items()}
     dicts = {}
     for d, pd in w.dicts.items():
         items = dict(pd.items())
@@ -324,7 +472,7 @@ def shadow(prog: list, results: list[str], hist_vals: list[dict], upto: int, val
     for j in range(upto + 1):
         op = prog[j]
         name = op[0]
-        if results[j] != "ok" or name in PARAM_OPS:
+        if results[j] != "ok" or name in PARAM_OPS or name in CLIENT_OPS:
             continue
         if name == "freeze":
             if j not in memo:
@@ -404,11 +552,41 @@ def well_formed(prog: list) -> bool:
     def pids(a) -> list:
         return [a["p"]] if isinstance(a, dict) and "p" in a else []
 
+    boxes: dict = {}   # the client's containers, as the history says they are at each point
+
     for op in prog:
         name = op[0]
+        if name == "cbox":
+            boxes[op[1]] = list(op[3]) if op[2] == "list" else tuple(op[3])
+            continue
+        if name == "cmut":
+            box = boxes.get(op[1])
+            if op[1].startswith("swaps:"):
+                continue
+            if box is None or (op[2] in ("setp", "append") and isinstance(box, dict) and op[4] not in ps):
+                return False
+            if isinstance(box, list):
+                box_mut(box, op[2], op[3], op[4])
+            elif isinstance(box, dict):
+                keys = list(box)
+                if op[2] == "clear":
+                    box.clear()
+                elif op[2] == "pop" and keys:
+                    box.pop(keys[op[3] % len(keys)])
+                elif op[2] == "setp" and keys:
+                    box[keys[op[3] % len(keys)]] = op[4]
+                elif op[2] == "append":
+                    box[f"new{op[3]}"] = op[4]
+            continue
+        if name == "cscrib":
+            continue
         if name == "pnew":
             if op[1] in ps:
                 return False
+            if len(op) > 4 and op[4].get("box") is not None:
+                box = boxes.get(op[4]["box"])
+                if box is None or isinstance(box, dict) or op[3] is None or list(box) != list(op[3]):
+                    return False
             ps.add(op[1])
         elif name in ("pset", "pmin", "pmax"):
             if op[1] not in ps:
@@ -416,6 +594,10 @@ def well_formed(prog: list) -> bool:
         elif name == "dnew":
             if any(pid not in ps for _, pid in op[2]):
                 return False
+            if len(op) > 3 and op[3].get("box") is not None:
+                have = boxes.setdefault(op[3]["box"], {k: pid for k, pid in op[2]})
+                if not isinstance(have, dict) or list(have.items()) != [(k, pid) for k, pid in op[2]]:
+                    return False
             ds.add(op[1])
         elif name in ("dset", "dremove"):
             if op[1] not in ds:
@@ -803,10 +985,10 @@ class Gen:
     # (1) boundary numerics: every place where the code tests a number for truthiness or compares it
     # (2) every Parameter-carrying field, at every depth, through every rewrite, rewrite BEFORE update
 
-    def emit_pnew(self, kind: str, v: dict, b) -> int | None:
+    def emit_pnew(self, kind: str, v: dict, b, box: str | None = None) -> int | None:
         pid = self.npid
         self.npid += 1
-        self.prog.append(["pnew", pid, v, b])
+        self.prog.append(["pnew", pid, v, b] if box is None else ["pnew", pid, v, list(b), {"box": box}])
         self.note("pnew" + ("+bounds" if b is not None else ""))
         if not self.believe_new(pid, v, b):
             self.note("pnew-rejected(expected)")
@@ -1167,6 +1349,153 @@ def gen_rewrite_history(rng, big: bool = False) -> tuple[list, dict]:
     return g.prog, g.counts
 
 
+def gen_shared_history(rng, big: bool = False) -> tuple[list, dict]:
+    """CALLER-OWNED DATA: 2-4 Parameters built from ONE bounds container of the client (a list mostly, a tuple now and
+    then) next to controls with a list of their own / without bounds, held by circuits and by ParameterDicts filled from
+    one dict of the client; then bound updates on one holder placed between its own value and the value of ANOTHER
+    holder (accepted for the one, would exclude the other), rejected updates, value updates of the others inside their
+    declared bounds, the client writing into its containers afterwards, further Parameters from the container as it is
+    then, and writes into objects the library handed out."""
+    g = Gen(rng, big, True)
+    kind = rng.choice(["unit", "unit", "unit", "phase", "free"])
+    vals = PHASE_SORTED if kind == "phase" else ([l for l in UNIT_SORTED if 0 <= l.key <= 1] if kind == "unit" else UNIT_SORTED)
+    bnds = PHASE_BOUNDS_SORTED if kind == "phase" else UNIT_SORTED
+    sv = lambda l: None if l is None else spell(rng, l.v())  # noqa: E731
+    boxes: dict[str, list] = {}     # name -> content as literals (the generator's record)
+    kinds: dict[str, str] = {}
+    holders: dict[str, list[int]] = {}
+
+    def new_box() -> str:
+        name = f"B{len(boxes)}"
+        r = rng.random()
+        if r < 0.55:      # the whole range of the role
+            lo, hi = (bnds[0], bnds[-1]) if kind != "unit" else (UNIT_ZERO, UNIT_ONE)
+        elif r < 0.8:
+            i = rng.randrange(0, max(1, len(vals) // 3))
+            j = rng.randrange(2 * len(vals) // 3, len(vals))
+            lo, hi = vals[i], vals[j]
+        elif r < 0.9:
+            lo, hi = None, rng.choice(vals[len(vals) // 2:])
+        else:
+            lo, hi = rng.choice(vals[: len(vals) // 2]), None
+        boxes[name] = [sv(lo), sv(hi)]
+        kinds[name] = "list" if rng.random() < 0.8 else "tuple"
+        holders[name] = []
+        g.prog.append(["cbox", name, kinds[name], list(boxes[name])])
+        g.note("shared:container:" + kinds[name])
+        return name
+
+    def inside(content: list) -> list:
+        if len(content) != 2 or any(x is not None and "n" not in x for x in content):
+            return list(vals)
+        lo, hi = (None if x is None else Fraction(x["n"]) for x in content)
+        return [l for l in vals if (lo is None or lo <= l.key) and (hi is None or l.key <= hi)] or list(vals)
+
+    def holder(name: str) -> None:
+        if g.npid >= 8:
+            return
+        c = inside(boxes[name])
+        pid = g.emit_pnew(kind, sv(rng.choice(c)), list(boxes[name]), box=name)
+        if pid is not None:
+            holders[name].append(pid)
+        g.note("shared:pnew-from-container")
+
+    box = new_box()
+    for _ in range(rng.randint(2, 4)):
+        holder(box)
+    if rng.random() < 0.4:          # control: equal content, a list of its own
+        g.emit_pnew(kind, sv(rng.choice(inside(boxes[box]))), list(boxes[box]))
+    if rng.random() < 0.3:
+        g.emit_pnew(kind, sv(rng.choice(vals)), None)
+    if rng.random() < 0.25:
+        b2 = new_box()
+        for _ in range(rng.randint(1, 2)):
+            holder(b2)
+    while not g.kind:
+        g.emit_pnew(kind, sv(rng.choice(vals)), None)
+    dboxes: list[str] = []
+    if rng.random() < 0.7:
+        # ParameterDicts filled from ONE dict of the client
+        items = [[f"k{i}", pid] for i, pid in enumerate(g.kind)]
+        for d in (["d0", "d1"] if rng.random() < 0.5 else ["d0"]):
+            g.prog.append(["dnew", d, [list(x) for x in items], {"box": "D0"}])
+            g.dkeys[d] = [k for k, _ in items]
+            for k, q in items:
+                g.dmap[(d, k)] = q
+            g.note("op:dnew")
+        dboxes.append("D0")
+    cid = g.new_circ(rng.randint(2, 3))
+    if kind != "free":
+        for pid in list(g.kind):
+            if rng.random() < 0.8:
+                g.attach(cid, pid)
+    if rng.random() < 0.3:
+        g.prog.append(["swaps", cid, cg.rand_perm_pairs(rng, list(range(g.vis[cid])))])
+        dboxes.append("swaps:" + cid)
+
+    def squeeze() -> None:
+        """a bound for one holder that its own value satisfies and that lies beyond the value of another holder"""
+        name = rng.choice([n for n in holders if holders[n]] or [box])
+        hs = [p for p in holders[name] if g.cur.get(p) is not None]
+        if not hs:
+            return
+        pid = rng.choice(hs)
+        cur = g.cur[pid]
+        side = rng.choice(["min", "max"])
+        others = [g.cur[q] for q in hs if q != pid]
+        if side == "max":
+            c = [l for l in bnds if l.key >= cur and any(o > l.key for o in others)]
+        else:
+            c = [l for l in bnds if l.key <= cur and any(o < l.key for o in others)]
+        if not c:
+            c = [l for l in bnds if (l.key >= cur if side == "max" else l.key <= cur)]
+            g.note("shared:bound-update:accepted")
+        else:
+            g.note("shared:bound-update:accepted, beyond the value of another holder")
+        g.emit_bound(pid, side, sv(rng.choice(c)))
+
+    for _ in range(rng.randint(7, 16 if big else 12)):
+        r = rng.random()
+        pid = rng.choice(list(g.kind))
+        if r < 0.3:
+            squeeze()
+        elif r < 0.5:
+            # value of a holder, anywhere inside the bounds IT was given (accepted unless its own setters narrowed them)
+            lo, hi = g.lo.get(pid), g.hi.get(pid)
+            c = [l for l in vals if (lo is None or lo <= l.key) and (hi is None or l.key <= hi)] or vals
+            g.emit_set(pid, sv(rng.choice([c[0], c[-1], rng.choice(c)])))
+        elif r < 0.62:
+            g.boundary_move(pid)
+        elif r < 0.76:
+            lists = [n for n in boxes if kinds[n] == "list"]
+            if lists:
+                name = rng.choice(lists)
+                how = rng.choice(["set", "set", "set", "clear", "append", "reverse", "pop"])
+                i = rng.randrange(2)
+                lit = rng.choice([None, v_other(0), sv(rng.choice(bnds)), sv(rng.choice(bnds))])
+                g.prog.append(["cmut", name, how, i, lit])
+                box_mut(boxes[name], how, i, lit)
+                g.note("shared:client-writes-into-bounds-list:" + how)
+        elif r < 0.84 and dboxes:
+            name = rng.choice(dboxes)
+            if name.startswith("swaps:"):
+                g.prog.append(["cmut", name, rng.choice(["clear", "pop", "ident"]), rng.randrange(3), None])
+            else:
+                how = rng.choice(["clear", "pop", "setp", "append"])
+                g.prog.append(["cmut", name, how, rng.randrange(3), rng.choice(list(g.kind)) if how in ("setp", "append") else None])
+                dboxes.remove(name)   # the dict is not handed over again after the client changed it
+            g.note("shared:client-writes-into-dict")
+        elif r < 0.9:
+            holder(rng.choice(list(boxes)))     # the container as it is NOW (possibly no longer two bounds)
+        elif r < 0.95:
+            what = rng.choice(["gap", "pd_items", "pd_params", "pd_bounds"])
+            g.prog.append(["cscrib", what, cid if what == "gap" else "d0"])
+            g.note("shared:client-writes-into-returned-object")
+        else:
+            g.derive(rng.choice(["freeze", "copy"]), rng.choice(list(g.vis)))
+    return g.prog, g.counts
+
+
 def gen_history(rng, big: bool = False, rewrites: bool = True) -> tuple[list, dict]:
     g = Gen(rng, big, rewrites)
     for _ in range(rng.randint(1, 3)):
@@ -1299,4 +1628,48 @@ def corpus() -> list[tuple[str, list]]:
             if nname == "heralded" and rname == "plus":
                 continue
             out.append((f"fields:{nname}:{rname}", [*build, *nest, *rw(top), *updates, ["freeze", "x1", top]]))
+    # (c) caller-owned data: one bounds container for several Parameters, one dict for several ParameterDicts, the client
+    #     writing into them afterwards, writes into returned objects
+    lo_v, hi_v = u["25/169"], u["144/169"]
+    mid1, mid2 = u["9/25"], u["16/25"]
+    for cname, ckind, zero, one in (("list-int", "list", 0, 1), ("list-float", "list", 0.0, 1.0), ("tuple", "tuple", 0, 1.0)):
+        B = [_n(UNIT_ZERO, zero), _n(UNIT_ONE, one)]
+        out.append((f"shared-bounds:{cname}", [
+            ["cbox", "B0", ckind, list(B)],
+            ["pnew", 0, hi_v.v(), list(B), {"box": "B0"}], ["pnew", 1, lo_v.v(), list(B), {"box": "B0"}],
+            ["pnew", 2, mid2.v(), list(B), {"box": "B0"}], ["pnew", 3, mid1.v(), list(B)],
+            ["dnew", "d0", [["a", 0], ["b", 1]], {"box": "D0"}], ["dnew", "d1", [["a", 0], ["b", 1]], {"box": "D0"}],
+            ["new", "c0", 3], ["bsp", "c0", 0, 2, {"p": 0}, "Rx", {"p": 1}], ["lossp", "c0", 1, {"p": 2}],
+            ["pmax", 1, mid1.v()],                       # fine for parameter 1; says nothing about 0 and 2
+            ["pmin", 1, _n(u["121/3721"])],
+            ["pset", 0, _n(u["576/625"])], ["dset", "d1", "a", _n(u["49/625"])], ["pset", 2, hi_v.v()],
+            ["pmin", 0, mid1.v()],                       # rejected (value 49/625): nothing may move
+            ["pmin", 2, mid2.v()], ["pset", 1, _n(u["64/289"])], ["pset", 1, mid2.v()], ["pset", 3, _n(UNIT_ONE, one)],
+            ["cmut", "B0", "set", 1, mid1.v()], ["pset", 0, hi_v.v()], ["cmut", "B0", "set", 0, hi_v.v()],
+            ["pset", 1, _n(u["121/3721"])], ["cmut", "B0", "reverse", 0, None], ["cmut", "B0", "set", 0, v_other(0)],
+            ["pset", 2, _n(UNIT_ONE, one)], ["cmut", "B0", "clear", 0, None],
+            ["pnew", 4, mid1.v(), [] if ckind == "list" else list(B), {"box": "B0"}],
+            ["cmut", "B0", "append", 0, None], ["cmut", "B0", "append", 0, mid2.v()],
+            ["pnew", 5, mid1.v(), [None, mid2.v()] if ckind == "list" else list(B), {"box": "B0"}],
+            ["pmax", 5, hi_v.v()], ["pset", 5, hi_v.v()],
+            ["dremove", "d0", "a"], ["dset", "d1", "a", mid1.v()], ["dsetp", "d0", "c", 2],
+            ["cmut", "D0", "setp", 0, 3], ["cmut", "D0", "clear", 0, None], ["dset", "d1", "b", _n(u["64/289"])],
+            ["cscrib", "gap", "c0"], ["cscrib", "pd_items", "d1"], ["cscrib", "pd_params", "d0"], ["cscrib", "pd_bounds", "d1"],
+            ["freeze", "c1", "c0"], ["pset", 0, mid2.v()]]))
+    # one-sided containers, a phase Parameter pair sharing a list, the mode_swaps dict
+    PB = [_n(lo4), _n(hi4)]
+    out.append(("shared-bounds:phase", [
+        ["cbox", "B0", "list", list(PB)], ["pnew", 0, pneg.v(), list(PB), {"box": "B0"}],
+        ["pnew", 1, ppos2.v(), list(PB), {"box": "B0"}], ["new", "c0", 3], ["psp", "c0", 0, {"p": 0}, None],
+        ["psp", "c0", 2, {"p": 1}, None], ["swaps", "c0", [[0, 1], [1, 2], [2, 0]]], ["cmut", "swaps:c0", "ident", 0, None],
+        ["pmax", 0, _n(PHASE_ZERO, 0)], ["pset", 1, ppos.v()], ["pmin", 1, _n(PHASE_ZERO, 0.0)], ["pset", 0, ph[10].v()],
+        ["cmut", "swaps:c0", "clear", 0, None], ["cmut", "B0", "set", 0, _n(PHASE_ZERO, 0)], ["pset", 0, pneg.v()],
+        ["cmut", "B0", "pop", 1, None], ["pset", 1, ppos2.v()], ["cscrib", "gap", "c0"], ["pset", 0, ph[12].v()]]))
+    out.append(("shared-bounds:one-sided", [
+        ["cbox", "B0", "list", [None, _n(UNIT_ONE, 1)]], ["cbox", "B1", "list", [_n(UNIT_ZERO, 0), None]],
+        ["pnew", 0, hi_v.v(), [None, _n(UNIT_ONE, 1)], {"box": "B0"}], ["pnew", 1, lo_v.v(), [None, _n(UNIT_ONE, 1)], {"box": "B0"}],
+        ["pnew", 2, hi_v.v(), [_n(UNIT_ZERO, 0), None], {"box": "B1"}], ["pnew", 3, lo_v.v(), [_n(UNIT_ZERO, 0), None], {"box": "B1"}],
+        ["pmin", 0, mid2.v()], ["pset", 1, _n(neg_q)], ["pmax", 3, mid1.v()], ["pset", 2, _n(big)], ["pmax", 1, _n(UNIT_ZERO, 0)],
+        ["pset", 0, _n(UNIT_ONE, 1)], ["pmin", 2, _n(UNIT_ONE, 1.0)], ["pset", 3, _n(UNIT_ZERO, -0.0)],
+        ["cmut", "B0", "set", 0, mid1.v()], ["cmut", "B1", "set", 1, mid1.v()], ["pset", 1, _n(neg_one, -1)], ["pset", 2, _n(u["2"], 2)]]))
     return out
